@@ -167,26 +167,23 @@ Check self_equality_not_foldable :
 Print Assumptions self_equality_not_foldable.
 
 (* ------------------------------------------------------------------ single-table implementation model *)
-Theorem single_table_correct : forall d q,
-  single q -> proj_class q = false -> q_defined d q = true -> impl_single d q = q_out d q.
+(* single-table queries: the implementation model is the reference semantics and no finding class
+   applies (class 1, the projection fast path, is repaired in /repo: its former witness is answered
+   correctly by the model, and by the real Database on every check) *)
+Theorem single_table_correct : forall d q, single q -> impl_single d q = q_out d q /\ q_class d q = 0.
 Proof. exact impl_single_correct. Qed.
-Check single_table_correct : forall d q,
-  single q -> proj_class q = false -> q_defined d q = true -> impl_single d q = q_out d q.
+Check single_table_correct : forall d q, single q -> impl_single d q = q_out d q /\ q_class d q = 0.
 Print Assumptions single_table_correct.
-Theorem projection_fast_path_refuted :
+Theorem projection_fast_path_fixed :
   let d : db := [(2%nat, [[VInt 1; VInt 10]; [VInt 2; VInt 20]])] in
-  let q := mkQuery (FTab 0) None false [ECol 1] in
-  q_defined d q = true /\ proj_class q = true /\
-  q_out d q = [[Some (VInt 10)]; [Some (VInt 20)]] /\
-  impl_single d q = [[Some VNull]; [Some VNull]].
-Proof. exact proj_refuted. Qed.
-Check projection_fast_path_refuted :
+  impl_single d (mkQuery (FTab 0) None false [ECol 1]) = [[Some (VInt 10)]; [Some (VInt 20)]] /\
+  impl_single d (mkQuery (FTab 0) None false [ECol 1; ECol 0]) = [[Some (VInt 10); Some (VInt 1)]; [Some (VInt 20); Some (VInt 2)]].
+Proof. exact proj_fixed. Qed.
+Check projection_fast_path_fixed :
   let d : db := [(2%nat, [[VInt 1; VInt 10]; [VInt 2; VInt 20]])] in
-  let q := mkQuery (FTab 0) None false [ECol 1] in
-  q_defined d q = true /\ proj_class q = true /\
-  q_out d q = [[Some (VInt 10)]; [Some (VInt 20)]] /\
-  impl_single d q = [[Some VNull]; [Some VNull]].
-Print Assumptions projection_fast_path_refuted.
+  impl_single d (mkQuery (FTab 0) None false [ECol 1]) = [[Some (VInt 10)]; [Some (VInt 20)]] /\
+  impl_single d (mkQuery (FTab 0) None false [ECol 1; ECol 0]) = [[Some (VInt 10); Some (VInt 1)]; [Some (VInt 20); Some (VInt 2)]].
+Print Assumptions projection_fast_path_fixed.
 
 (* ------------------------------------------------------------------ non-vacuity *)
 Definition ex_db : db := [(2%nat, [[VInt 1; VInt 1]; [VInt 2; VNull]]); (2%nat, [[VInt 1; VInt 1]; [VInt 2; VInt 3]])].
@@ -214,6 +211,6 @@ Proof. repeat split; reflexivity. Qed.
 Example ex_fold : fold_step (EAnd (ECmp CEq (ELit (VInt 1)) (ELit (VInt 1))) (ECmp CLt (ECol 0) (ELit (VInt 3)))) = FSimp (ECmp CLt (ECol 0) (ELit (VInt 3)))
                   /\ fold_step (EOr (ECol 0) (ELit (VBool true))) = FRemoved.
 Proof. split; reflexivity. Qed.
-Example ex_single : single (mkQuery (FTab 0) None false [ECol 0; ECol 1]) /\ proj_class (mkQuery (FTab 0) None false [ECol 0; ECol 1]) = false
-                    /\ q_defined ex_db (mkQuery (FTab 0) None false [ECol 0; ECol 1]) = true.
-Proof. split; [now exists 0%nat|]. split; vm_compute; reflexivity. Qed.
+Example ex_single : single (mkQuery (FTab 0) None false [ECol 1; ECol 0]) /\
+                    q_defined ex_db (mkQuery (FTab 0) None false [ECol 1; ECol 0]) = true.
+Proof. split; [now exists 0%nat|]. vm_compute; reflexivity. Qed.
